@@ -141,18 +141,26 @@ impl Writer {
         apply_position_restrictions(&mut group);
 
         let mut included_files = HashSet::<String>::new();
+        // set while the most recently written item is a line comment ("// ...")
+        let mut after_line_comment = false;
 
         for item in group {
             match item {
                 TaggedItemInfo::Tag {
                     tag,
                     incfile,
-                    start_offset,
+                    mut start_offset,
                     end_offset,
                     is_block,
                     item_text,
                     ..
                 } => {
+                    if after_line_comment && start_offset == 0 {
+                        // the item would become part of the line comment. This can happen when
+                        // items are reordered, e.g. by a position restriction
+                        start_offset = 1;
+                    }
+                    after_line_comment = false;
                     if let Some(incname) = incfile {
                         if !included_files.contains(incname) {
                             self.add_whitespace(start_offset);
@@ -185,10 +193,16 @@ impl Writer {
                     if !is_included {
                         // don't use self.add_whitespace() here, because comments don't follow indentation rules
                         // if the comment was indented when it was parsed, then the indentation is preserved in the comment
-                        for _ in 0..start_offset {
+                        let newlines = if after_line_comment && start_offset == 0 {
+                            1
+                        } else {
+                            start_offset
+                        };
+                        for _ in 0..newlines {
                             self.outstring.push('\n');
                         }
                         self.outstring.push_str(comment);
+                        after_line_comment = comment.trim_start().starts_with("//");
                     }
                 }
             }
